@@ -5,6 +5,6 @@ SPEC = Spec(pid='C19', coq_needs=['Base', 'Layout', 'Config', 'ConfigProofs', 'P
             ties=[validate_tie(), gate_tie(), require_tie()],
             trusted_extra=['harness/ties_config.py abstract(): the abstraction of a YAML definition to Config.vcfg '
                            '(which sections/keys exist, names, counts, list lengths, register references, ranges, zones)',
-                           'harness/ties_config.py ver_term(): version text -> release list + pre-release tag, for the subset '
-                           'N(.N)*((a|b|rc)N)? of PEP 440; epochs, post/dev/local parts are not modelled'],
-            partial_note='validation is modelled on an abstraction of the YAML document; textual version parsing is harness code')
+                           'version text is read by the model itself (Config.parse_version) for the subset N(.N)*((a|b|rc)N)? of '
+                           'PEP 440; epochs, post/dev/local parts and alternative spellings are outside the modelled subset'],
+            partial_note='validation is modelled on an abstraction of the YAML document (harness code extracts it)')
